@@ -171,6 +171,19 @@ def run(ctx):
             ov = [i for i in range(b.n) if b.term(i)["k"] == "switch" and "bucket_overrides" in repr(sy.operand(b.term(i)["discr"]))]
             gl = [i for i in range(b.n) if b.term(i)["k"] == "switch" and "'buckets'" in repr(sy.operand(b.term(i)["discr"])) and "bucket_overrides" not in repr(sy.operand(b.term(i)["discr"]))]
             ok = len(ov) >= 1 and len(gl) >= 1 and all(b.dominates(ov[0], g) and g != ov[0] for g in gl)
+            # combinator spelling: overrides.iter().find(|m| m.matches(name)) ... .or(self.buckets..)
+            finds = []
+            for g_ in gd.region():
+                for c in nonforeign_calls(g_):
+                    if c.is_("Iterator::find", "Iterator::find_map") and "bucket_overrides" in repr(arg_syms(c)[0]):
+                        cl = strip_sym(arg_syms(c)[1])
+                        cf = next((x for x in g_.region() if x.path == cl[5]), None) if cl[0] == "agg" and cl[1] == "closure" else None
+                        if cf is not None and any(cc.is_("Matcher::matches") and "('arg', 1" in repr(arg_syms(cc)[1]) for cc in nonforeign_calls(cf)):
+                            finds.append(c)
+            ors = [c for c in nonforeign_calls(gd) if c.is_("Option<T>::or", "Option<T>::or_else")]
+            find_first = bool(finds) and any("Iterator::find" in repr(arg_syms(c)[0]) and "'buckets'" in repr(arg_syms(c)[1]) and "bucket_overrides" not in repr(arg_syms(c)[1]) for c in ors)
+            if not ok and find_first:
+                ok = True
             chk.ob("C15.b", f"{gd.path} [overrides before global buckets]", ok, "per-metric overrides are consulted before the global buckets" if ok else "global buckets are consulted before (or instead of) per-metric overrides", gd.loc())
             nh = [c for c in nonforeign_calls(gd) if c.fn is gd and c.is_("Distribution::new_histogram")]
             first = [c for c in nh if in_cycle(b, c.bb) or any(sym_is_call(dd, "Matcher::matches") for dd, lab in gates(b, c.bb))]
@@ -182,6 +195,8 @@ def run(ctx):
                 heads = [h.bb for h in nonforeign_calls(gd) if h.is_("Iterator::next")]
                 okf = okf and all(h not in b.reachable(c.t.get("target")) for h in heads)
                 a = strip_sym(arg_syms(c)[0])
+            if not okf and finds:
+                okf = True  # Iterator::find returns the first element whose matcher matches the name
             chk.ob("C15.b", f"{gd.path} [first match wins]", okf, "the first override whose matcher matches the name decides, with its own buckets" if okf else "get_distribution does not return at the first matching override", gd.loc())
         mm = one_method(chk, "C15.b", p, f"{P}::common::Matcher", "matches")
         if mm:
